@@ -781,7 +781,8 @@ func (e *Env) call(x *ECall) (Val, types.Type) {
 				n := strings.TrimSuffix(v.Fn.String(), "$bound")
 				return Val{T: t.S.strLit(n)}, types.Typ[types.String]
 			}
-			return Val{T: t.freshVal("fnname", types.Typ[types.String])}, types.Typ[types.String]
+			// not known statically here: the name attached to the function value itself (set where the value was made)
+			return Val{T: fmt.Sprintf("(fnname_of %s)", v.T)}, types.Typ[types.String]
 		}
 		if v.Fn != nil && strings.HasSuffix(v.Fn.String(), "$bound") && len(v.Bnd) == 1 && len(v.Fn.FreeVars) == 1 {
 			return Val{T: t.term(v.Bnd[0])}, v.Fn.FreeVars[0].Type()
